@@ -23,7 +23,11 @@ def native_search(unit, seed, run=None, timeout=120):
         mm = re.search(r'^// LINK:(.*)$', open(src).read(), flags=re.M)
         if mm:
             link = [os.path.join(srcdir, 'clipper.%s.cpp' % x) for x in mm.group(1).split()]
-        cmd = ['g++', '-std=c++17', '-O1', '-fno-access-control', '-w', '-I', inc, '-I', srcdir,
+        defs = []
+        mm = re.search(r'^// DEFS:(.*)$', open(src).read(), flags=re.M)
+        if mm:
+            defs = mm.group(1).split()
+        cmd = ['g++', '-std=c++17', '-O1', '-fno-access-control', '-w', '-pthread'] + defs + ['-I', inc, '-I', srcdir,
                '-I', os.path.join(VERIF, 'replay'), src] + link + ['-o', exe]
         p = subprocess.run(cmd, capture_output=True, text=True, timeout=300)
         if p.returncode != 0:
@@ -33,7 +37,7 @@ def native_search(unit, seed, run=None, timeout=120):
             out, rc = q.stdout + q.stderr, q.returncode
         except subprocess.TimeoutExpired:
             out, rc = 'native search timeout', 0
-        return dict(built=True, found=(rc == 1), rc=rc, log=out[-4000:])
+        return dict(built=True, found=(rc not in (0, 2) and rc > 0), rc=rc, log=out[-4000:])
     finally:
         shutil.rmtree(wd, ignore_errors=True)
 
